@@ -4,6 +4,7 @@
 //! Line protocol: see DESIGN.md Appendix B and extract/driver.ml (which prints the same `T` format).
 
 mod hs;
+mod pair;
 mod transport;
 
 use bytes::Bytes;
@@ -449,6 +450,27 @@ fn main() {
         }
         let f: Vec<&str> = line.split(' ').collect();
         let id = f[1];
+        if f[0] == "PR" {
+            // a pair run: its own trace, plus each endpoint's run re-executed as an ordinary S case
+            let parts = pair::run_pair(&f);
+            for (l, t) in parts {
+                if l.starts_with("S ") {
+                    let g: Vec<&str> = l.split(' ').collect();
+                    match run_socket(&g) {
+                        Ok((m, t2)) => {
+                            writeln!(out, "M {m}").unwrap();
+                            writeln!(out, "T {} {}", g[1], t2).unwrap();
+                        }
+                        Err(e) => {
+                            writeln!(out, "T {} bad-case:{}", g[1], e).unwrap();
+                        }
+                    }
+                } else {
+                    writeln!(out, "T {id} {t}").unwrap();
+                }
+            }
+            continue;
+        }
         let r = catch_unwind(AssertUnwindSafe(|| -> (String, String) {
             match f[0] {
                 "S" => match run_socket(&f) {
